@@ -403,15 +403,21 @@ func runScenario(spec scenarioSpec) *observation {
 	srv.closeLive()
 	wdone := make(chan struct{})
 	go func() { srv.wg.Wait(); close(wdone) }()
+	stopped := false
 	select {
 	case <-wdone:
+		stopped = true
 	case <-time.After(10 * time.Second):
 	}
 	for _, rec := range sc.sends {
 		rec.Made = atomic.LoadInt64(rec.madePtr)
 	}
 	obs.Sends = sc.sends
-	obs.Conns = srv.snapshot()
+	if stopped {
+		obs.Conns = srv.takeStreams()
+	} else {
+		obs.Conns = srv.snapshot()
+	}
 	obs.Log = lg.snapshot()
 	obs.Panics = sc.pan
 	srv.mu.Lock()
